@@ -268,7 +268,7 @@ pub fn run(ctx: &Ctx) -> i32 {
     let col = Arc::new(Collector::new());
     let tables = Arc::new(sut::make_tables(JDEF).unwrap());
     let stmts = statements();
-    let depth = ctx.tier.pick(4, 5);
+    let depth = ctx.tier.pick(4, 7);
     let k = jlines().len() as u8;
     let expect = seq_count(k as u64, depth as u32);
     let mut complete = true;
